@@ -170,8 +170,9 @@ LeafHolds(c, x) ==
 (***************************************************************************)
 (* Trees.  An item is a pair (key-or-index, value).                        *)
 (***************************************************************************)
-O3And(a, b) == IF a = "U" \/ b = "U" THEN (IF a = "F" \/ b = "F" THEN "F" ELSE "U") ELSE B(a = "T" /\ b = "T")
-O3Or(a, b)  == IF a = "U" \/ b = "U" THEN (IF a = "T" \/ b = "T" THEN "T" ELSE "U") ELSE B(a = "T" \/ b = "T")
+\* "U" (unconstrained) is strict: nothing is required of a combination with an unconstrained operand
+O3And(a, b) == IF a = "U" \/ b = "U" THEN "U" ELSE B(a = "T" /\ b = "T")
+O3Or(a, b)  == IF a = "U" \/ b = "U" THEN "U" ELSE B(a = "T" \/ b = "T")
 O3Xor(a, b) == IF a = "U" \/ b = "U" THEN "U" ELSE B(a # b)
 OpApply(op, a, b) == CASE op = "and" -> O3And(a, b) [] op = "or" -> O3Or(a, b) [] op = "xor" -> O3Xor(a, b)
 
@@ -183,7 +184,9 @@ EvalTree(c, k, v) ==
 
 RECURSIVE Leaves(_)
 Leaves(c) == CASE c.t = "null" -> <<c>> [] c.t = "leaf" -> <<c>> [] OTHER -> Leaves(c.l) \o Leaves(c.r)
-LeafKinds(c) == {IF l.t = "null" THEN "value" ELSE l.datum : l \in {Leaves(c)[i] : i \in 1..Len(Leaves(c))}}
+RECURSIVE LeafKinds(_)     \* (never build sets of terms: TLC cannot compare heterogeneous records)
+LeafKinds(c) == CASE c.t = "null" -> {"value"} [] c.t = "leaf" -> {c.datum}
+                  [] OTHER -> LeafKinds(c.l) \cup LeafKinds(c.r)
 IsValueLike(c) == LeafKinds(c) = {"value"}
 IsKeyLike(c) == LeafKinds(c) = {"key"}
 IsIndexLike(c) == LeafKinds(c) = {"index"}
